@@ -12,6 +12,13 @@ Checked structurally (no Gallina emitted, any other shape is an error):
   _check_int            is dead code (no call anywhere in flatten.py) - it was only used by the int-candidate
                         lookup removed in d68bde6; if it is called again the hand model no longer describes the code
 proofs/FlattenInst.v proves encode_gen = Flatten.encode and should_flatten_gen = Flatten.should_flatten.
+
+Second output, gen/FlattenRecGen.v (generate_rec(); registered through the shim translator/gen_flatten_rec.py so that a
+property that only needs _encode keeps building when the recursive functions change):
+  _flatten, flatten, _entry_to_container, _populate_container, inflate     translated STATEMENT BY STATEMENT into the
+  option monad over the Python vocabulary of coq/model/FlattenPy.v (see the section "the recursive functions" below
+  for the accepted subset).  proofs/FlattenRecInst.v and proofs/InflateInst.v prove the generated terms equal to /
+  refined by the hand model of coq/model/Flatten.v.
 """
 from __future__ import annotations
 
@@ -190,3 +197,850 @@ def generate() -> dict:
             "From TS Require Import model.Base model.Flatten.\n\n"
             + _encode(fns["_encode"]) + "\n" + _should_flatten(fns["_should_flatten_dict"]))
     return {"FlattenGen": text}
+
+
+# ============================================================================= the recursive functions
+# Accepted subset (anything else raises TranslateError = the run's translation obligation is broken):
+#   statements   x = e | a, b = e | x: T = e | d[k] = e | dd[k1][k2] = e | del c[k] | x = l.pop() | d.update(m) |
+#                c.extend(e) | if/elif/else | for <name or pair> in e: (the names the body rebinds or mutates and that
+#                exist before the loop are its state) | continue | return e | raise ... | f(container=h[k], ...) for a
+#                translated function that mutates its parameter (the heap cell h[k] is rewritten)
+#   expressions  names, str/int literals, {} , [] , (a, b), f"..{str-valued}..", and/or/not, == on str, < <= > >= == on int,
+#                in / not in a dict,
+#                type(x) == T (or `is T`), type(x) in (T, ..), isinstance(x, T | (T, ..)), str(), int(), len(), list(), enumerate(),
+#                sorted(e, key=lambda ..), x.keys(), x.items(), s.split("/"), s.split("/")[0], "/".join(l), p[0], p[1],
+#                d[k], entry.keys, dict.fromkeys / OrderedDict.fromkeys, defaultdict(dict), itertools.chain(a, b),
+#                ListEntry() / DictEntry(keys=..) / OrderedDictEntry(keys=..), list/generator/dict comprehensions with one
+#                generator, calls of _encode, _decode, _should_flatten_dict and of the translated functions
+# A sub-expression that can raise (d[k], int(s), entry.keys, c.keys(), a call of a translated function) is bound with
+# `x <- e ;;` BEFORE the statement it occurs in; it is refused inside and/or, lambdas and comprehensions (where
+# hoisting would change the evaluation order), except as the whole body of a sorted() key.
+STR, INT, BOOL, OBJ, KEY, ENTRY, REF, CONT = "str", "int", "bool", "obj", "key", "entry", "ref", "cont"
+DDICT = ("ddict",)                      # defaultdict(dict): str -> (str -> reference)
+
+
+def LIST(t):
+    return ("list", t)
+
+
+def PAIR(a, b):
+    return ("pair", a, b)
+
+
+def SDICT(v):                           # dict with str keys; v None: value type not known yet
+    return ("sdict", v)
+
+
+HEAP = SDICT(CONT)
+_COQTY = {STR: "pystr", INT: "Z", BOOL: "bool", OBJ: "obj", KEY: "key", ENTRY: "entry", REF: "ref", CONT: "cont ref"}
+PYTYPES = {"list": "TyList", "dict": "TyDict", "OrderedDict": "TyOrderedDict"}
+ECLS = {"ListEntry": "ClsListEntry", "DictEntry": "ClsDictEntry", "OrderedDictEntry": "ClsOrderedDictEntry"}
+
+
+def coqty(t) -> str:
+    if t in _COQTY:
+        return _COQTY[t]
+    if t == DDICT:
+        return "sdict (sdict ref)"
+    if t[0] == "list":
+        return f"list ({coqty(t[1])})"
+    if t[0] == "pair":
+        return f"({coqty(t[1])} * {coqty(t[2])})"
+    if t[0] == "sdict" and t[1] is not None:
+        return f"sdict ({coqty(t[1])})"
+    raise TranslateError("types", f"no Coq type for {t}")
+
+
+def same(a, b) -> bool:
+    """type equality where an sdict whose value type is still unknown matches every sdict"""
+    if a == b:
+        return True
+    if isinstance(a, tuple) and isinstance(b, tuple) and a and b and a[0] == b[0] and len(a) == len(b):
+        if a[0] == "sdict":
+            return a[1] is None or b[1] is None or same(a[1], b[1])
+        return all(same(x, y) for x, y in zip(a[1:], b[1:]))
+    return False
+
+
+def _comment(node) -> str:
+    t = ast.unparse(node).splitlines()[0][:96].replace('"', "'").replace("(*", "( *").replace("*)", "* )")
+    return f"(* {node.lineno}: {t} *)"
+
+
+_ZCMP = {ast.Lt: "<?", ast.LtE: "<=?", ast.Gt: ">?", ast.GtE: ">=?", ast.Eq: "=?"}
+
+
+class Sig:
+    def __init__(self, py, gname, ptypes, ret, fuel=False, heap_ret=False):
+        self.py, self.gname, self.ptypes, self.ret, self.fuel, self.heap_ret = py, gname, ptypes, ret, fuel, heap_ret
+        self.params: list[str] = []        # filled from the def
+        self.mutates: list[str] = []       # parameters the body mutates in place (filled when translated)
+
+
+def _base_name(node):
+    while isinstance(node, ast.Subscript):
+        node = node.value
+    return node.id if isinstance(node, ast.Name) else None
+
+
+MUTATORS = {"update", "extend", "pop"}
+
+
+def assigned(stmts, sigs) -> list[str]:
+    """names a block rebinds or mutates, in order of first occurrence"""
+    out: list[str] = []
+
+    def add(n):
+        if n is not None and n not in out:
+            out.append(n)
+
+    def tgt(t):
+        if isinstance(t, ast.Name):
+            add(t.id)
+        elif isinstance(t, (ast.Tuple, ast.List)):
+            for x in t.elts:
+                tgt(x)
+        else:
+            add(_base_name(t))
+
+    for s in stmts:
+        for n in ast.walk(s):
+            if isinstance(n, ast.Assign):
+                for t in n.targets:
+                    tgt(t)
+            elif isinstance(n, (ast.AnnAssign, ast.AugAssign)):
+                tgt(n.target)
+            elif isinstance(n, ast.For):
+                tgt(n.target)
+            elif isinstance(n, ast.Delete):
+                for t in n.targets:
+                    tgt(t)
+            elif isinstance(n, ast.Call):
+                if isinstance(n.func, ast.Attribute) and n.func.attr in MUTATORS and isinstance(n.func.value, ast.Name):
+                    add(n.func.value.id)
+                if isinstance(n.func, ast.Name) and n.func.id in sigs:
+                    for kw in n.keywords:
+                        if kw.arg in sigs[n.func.id].mutates:
+                            add(_base_name(kw.value))
+                    for i, a in enumerate(n.args):
+                        ps = sigs[n.func.id].params
+                        if i < len(ps) and ps[i] in sigs[n.func.id].mutates:
+                            add(_base_name(a))
+    return out
+
+
+class FnTr:
+    """translation of one function of flatten.py"""
+
+    def __init__(self, fn: ast.FunctionDef, sig: Sig, sigs: dict):
+        self.fn, self.sig, self.sigs = fn, sig, sigs
+        self.where = fn.name
+        a = fn.args
+        if a.vararg or a.kwarg or a.kwonlyargs or a.posonlyargs or a.defaults or len(a.args) != len(sig.ptypes):
+            raise TranslateError(self.where, "signature changed")
+        self.params = [x.arg for x in a.args]
+        self.env = dict(zip(self.params, sig.ptypes))
+        self.ntmp = 0
+        self.loop_conts: list = []
+        self.self_calls = 0
+
+    # ------------------------------------------------------------------ helpers
+    def err(self, node, msg):
+        raise TranslateError(self.where, f"line {getattr(node, 'lineno', '?')}: {msg}: {ast.unparse(node)[:110]}")
+
+    def tmp(self) -> str:
+        self.ntmp += 1
+        return f"t{self.ntmp}"
+
+    @staticmethod
+    def v(name: str) -> str:
+        return "v_" + name
+
+    def pure(self, e, want=None):
+        B, t, ty = self.ex(e, want)
+        if B:
+            self.err(e, "an expression that can raise is not accepted in this position")
+        return t, ty
+
+    def builtin(self, e, name) -> bool:
+        """e is the global name `name` (not shadowed by a local)"""
+        return isinstance(e, ast.Name) and e.id == name and name not in self.env
+
+    # ------------------------------------------------------------------ expressions: (binds, term, type)
+    def ex(self, e, want=None):
+        if isinstance(e, ast.Name):
+            if e.id in self.env:
+                return [], self.v(e.id), self.env[e.id]
+            self.err(e, "unknown name")
+        if isinstance(e, ast.Constant):
+            if isinstance(e.value, str):
+                return [], _lit(e, self.where), STR
+            if isinstance(e.value, bool):
+                return [], "true" if e.value else "false", BOOL
+            if isinstance(e.value, int):
+                return [], (f"({e.value})" if e.value < 0 else str(e.value)), INT
+        if isinstance(e, ast.Dict) and not e.keys:
+            return [], "[]", SDICT(None)
+        if isinstance(e, ast.List) and not e.elts and want == CONT:
+            return [], "(CList [])", CONT                      # a fresh (mutable) list object
+        if isinstance(e, ast.Tuple) and len(e.elts) == 2:
+            B1, a, ta = self.ex(e.elts[0])
+            B2, b, tb = self.ex(e.elts[1])
+            return B1 + B2, f"({a}, {b})", PAIR(ta, tb)
+        if isinstance(e, ast.JoinedStr):
+            parts = []
+            for p in e.values:
+                if isinstance(p, ast.Constant) and isinstance(p.value, str):
+                    parts.append(_lit(p, self.where))
+                elif isinstance(p, ast.FormattedValue) and p.conversion == -1 and p.format_spec is None:
+                    t, ty = self.pure(p.value)
+                    if ty != STR:
+                        self.err(p.value, "only str values are formatted")
+                    parts.append(t)
+                else:
+                    self.err(e, "unsupported f-string part")
+            return [], "(" + " ++ ".join(parts) + ")", STR
+        if isinstance(e, ast.BoolOp):
+            ts = []
+            for x in e.values:
+                t, ty = self.pure(x)
+                if ty != BOOL:
+                    self.err(x, "not a bool")
+                ts.append(t)
+            return [], "(" + (" && " if isinstance(e.op, ast.And) else " || ").join(ts) + ")", BOOL
+        if isinstance(e, ast.UnaryOp) and isinstance(e.op, ast.Not):
+            B, t, ty = self.ex(e.operand)
+            if ty != BOOL:
+                self.err(e, "not of a non-bool")
+            return B, f"(negb {t})", BOOL
+        if isinstance(e, ast.Compare) and len(e.ops) == 1:
+            return self.compare(e)
+        if isinstance(e, ast.Subscript):
+            return self.subscript(e, want)
+        if isinstance(e, ast.Attribute) and e.attr == "keys":
+            B, t, ty = self.ex(e.value)
+            if ty == ENTRY:
+                x = self.tmp()
+                return B + [(x, f"entry_keys {t}")], x, LIST(KEY)
+        if isinstance(e, ast.Call):
+            return self.call(e, want)
+        if isinstance(e, (ast.GeneratorExp, ast.ListComp)):
+            lam, items, ty = self.comp(e.generators, lambda: self.pure(e.elt))
+            return [], f"(map (fun it => {lam[0]}{lam[1]}) {items})", LIST(ty)
+        if isinstance(e, ast.DictComp):
+            def body():
+                k, tk = self.pure(e.key)
+                val, tv = self.pure(e.value)
+                if tk != STR:
+                    self.err(e.key, "dict comprehension with non-str keys")
+                return f"({k}, {val})", tv
+            lam, items, tv = self.comp(e.generators, body, listify=True)
+            return [], f"(sdict_of_list (flat_map (fun it => {lam[0]}{lam[1]}) {items}))", SDICT(tv)
+        self.err(e, "unsupported expression")
+
+    def bind_target(self, target, ty, src):
+        """lets that destructure the loop item `src` of type ty; updates env"""
+        if isinstance(target, ast.Name):
+            self.env[target.id] = ty
+            return f"let {self.v(target.id)} := {src} in "
+        if (isinstance(target, ast.Tuple) and len(target.elts) == 2 and all(isinstance(x, ast.Name) for x in target.elts)
+                and isinstance(ty, tuple) and ty[0] == "pair"):
+            a, b = target.elts
+            self.env[a.id], self.env[b.id] = ty[1], ty[2]
+            return f"let {self.v(a.id)} := fst {src} in let {self.v(b.id)} := snd {src} in "
+        self.err(target, "unsupported loop target")
+
+    def comp(self, gens, body, listify=False):
+        if not (len(gens) == 1 and not gens[0].is_async):
+            raise TranslateError(self.where, "comprehension with several generators")
+        g = gens[0]
+        items, ity = self.pure(g.iter)
+        if not (isinstance(ity, tuple) and ity[0] == "list"):
+            self.err(g.iter, "comprehension over a non-list")
+        saved = dict(self.env)
+        lets = self.bind_target(g.target, ity[1], "it")
+        conds = []
+        for c in g.ifs:
+            t, ty = self.pure(c)
+            if ty != BOOL:
+                self.err(c, "not a bool")
+            conds.append(t)
+        t, ty = body()
+        self.env = saved
+        if listify:
+            t = f"[{t}]"
+            if conds:
+                t = f"if {' && '.join(conds)} then {t} else []"
+        elif conds:
+            self.err(g.ifs[0], "filtered generator")
+        return (lets, t), items, ty
+
+    def compare(self, e):
+        op, l, r = e.ops[0], e.left, e.comparators[0]
+        # type(x) == T   /   type(x) in (T, ...)
+        if isinstance(l, ast.Call) and self.builtin(l.func, "type") and len(l.args) == 1 and not l.keywords:
+            x, tx = self.pure(l.args[0])
+            tyf = {OBJ: "py_type", CONT: "cont_type"}.get(tx)
+            if tyf is None:
+                self.err(l, "type() of this is not modelled")
+            if isinstance(op, (ast.Eq, ast.Is)) and isinstance(r, ast.Name) and r.id in PYTYPES and r.id not in self.env:
+                return [], f"(pytype_eqb ({tyf} {x}) {PYTYPES[r.id]})", BOOL
+            if isinstance(op, ast.In) and isinstance(r, (ast.Tuple, ast.List)) and r.elts and all(
+                    isinstance(c, ast.Name) and c.id in PYTYPES and c.id not in self.env for c in r.elts):
+                return [], f"(existsb (pytype_eqb ({tyf} {x})) [{'; '.join(PYTYPES[c.id] for c in r.elts)}])", BOOL
+            self.err(e, "unsupported type test")
+        B1, a, ta = self.ex(l)
+        B2, b, tb = self.ex(r)
+        if B2 and B1:
+            self.err(e, "both sides can raise")
+        if isinstance(op, ast.Eq) and ta == STR and tb == STR:
+            return B1 + B2, f"(str_eqb {a} {b})", BOOL
+        if type(op) in _ZCMP and ta == INT and tb == INT:
+            return B1 + B2, f"({a} {_ZCMP[type(op)]} {b})", BOOL
+        if isinstance(op, (ast.In, ast.NotIn)) and ta == STR and (tb == DDICT or (isinstance(tb, tuple) and tb[0] == "sdict")):
+            t = f"(sdict_mem {a} {b})"
+            return B1 + B2, (t if isinstance(op, ast.In) else f"(negb {t})"), BOOL
+        self.err(e, "unsupported comparison")
+
+    def subscript(self, e, want):
+        # s.split("/")[0]
+        if (isinstance(e.slice, ast.Constant) and e.slice.value == 0 and isinstance(e.value, ast.Call)
+                and isinstance(e.value.func, ast.Attribute) and e.value.func.attr == "split"):
+            B, t, ty = self.ex(e.value)
+            if ty == LIST(STR) and t.startswith("(split "):
+                return B, "(split_head " + t[len("(split "):], STR
+        B, t, ty = self.ex(e.value)
+        if isinstance(ty, tuple) and ty[0] == "pair" and isinstance(e.slice, ast.Constant) and e.slice.value in (0, 1):
+            return B, f"({'fst' if e.slice.value == 0 else 'snd'} {t})", ty[1 + e.slice.value]
+        if isinstance(ty, tuple) and ty[0] == "sdict" and ty[1] is not None:
+            k, tk = self.pure(e.slice)
+            if tk != STR:
+                self.err(e, "non-str key")
+            x = self.tmp()
+            if ty == HEAP and want == REF:
+                return B + [(x, f"heap_ref {t} {k}")], x, REF        # the container object itself
+            return B + [(x, f"sdict_get {k} {t}")], x, ty[1]
+        self.err(e, "unsupported subscript")
+
+    def callargs(self, e, sig: Sig):
+        """positional + keyword arguments of a call of a translated function, in parameter order"""
+        if len(e.args) > len(sig.params):
+            self.err(e, "too many arguments")
+        got = dict(zip(sig.params, e.args))
+        for kw in e.keywords:
+            if kw.arg is None or kw.arg not in sig.params or kw.arg in got:
+                self.err(e, "bad keyword argument")
+            got[kw.arg] = kw.value
+        if set(got) != set(sig.params):
+            self.err(e, "missing argument")
+        return [got[p] for p in sig.params]
+
+    def call(self, e, want):
+        f = e.func
+        nargs = len(e.args)
+        plain = not e.keywords
+        if isinstance(f, ast.Name) and f.id not in self.env:
+            n = f.id
+            if n == "str" and nargs == 1 and plain:
+                B, t, ty = self.ex(e.args[0])
+                if ty == INT:
+                    return B, f"(str_of_Z {t})", STR
+                if ty == KEY:
+                    return B, f"(key_str {t})", STR
+                if ty == STR:
+                    return B, t, STR
+                self.err(e, "str() of this is not modelled")
+            if n == "int" and nargs == 1 and plain:
+                B, t, ty = self.ex(e.args[0])
+                if ty != STR:
+                    self.err(e, "int() of a non-str")
+                x = self.tmp()
+                return B + [(x, f"parse_int {t}")], x, INT
+            if n == "len" and nargs == 1 and plain:
+                B, t, ty = self.ex(e.args[0])
+                if isinstance(ty, tuple) and ty[0] == "list":
+                    return B, f"(Z.of_nat (length {t}))", INT
+                self.err(e, "len() of this is not modelled")
+            if n == "list" and nargs == 1 and plain:
+                B, t, ty = self.ex(e.args[0])
+                if isinstance(ty, tuple) and ty[0] == "list":
+                    return B, t, ty
+                self.err(e, "list() of this is not modelled")
+            if n == "enumerate" and nargs == 1 and plain:
+                B, t, ty = self.ex(e.args[0])
+                if ty == OBJ:
+                    return B, f"(enumerate (obj_list_items {t}))", LIST(PAIR(INT, OBJ))
+                if isinstance(ty, tuple) and ty[0] == "list":
+                    return B, f"(enumerate {t})", LIST(PAIR(INT, ty[1]))
+                self.err(e, "enumerate() of this is not modelled")
+            if n == "sorted" and nargs == 1 and [k.arg for k in e.keywords] == ["key"]:
+                return self.sorted_(e)
+            if n == "isinstance" and nargs == 2 and plain:
+                B, t, ty = self.ex(e.args[0])
+                c = e.args[1]
+                cs = list(c.elts) if isinstance(c, ast.Tuple) else [c]
+                if ty == CONT and cs and all(isinstance(x, ast.Name) and x.id in PYTYPES and x.id not in self.env for x in cs):
+                    return B, f"(cont_isinstance {t} [{'; '.join(PYTYPES[x.id] for x in cs)}])", BOOL
+                if ty == ENTRY and len(cs) == 1 and isinstance(c, ast.Name) and c.id in ECLS and c.id not in self.env:
+                    return B, f"(entry_isinstance {t} {ECLS[c.id]})", BOOL
+                self.err(e, "unsupported isinstance")
+            if n == "defaultdict" and nargs == 1 and plain and self.builtin(e.args[0], "dict"):
+                return [], "[]", DDICT
+            if n in ("_encode", "_decode") and nargs == 1 and plain:
+                B, t, ty = self.ex(e.args[0])
+                if ty != STR:
+                    self.err(e, "argument is not a str")
+                return B, f"({'encode_gen' if n == '_encode' else 'decode'} {t})", STR
+            if n == "_should_flatten_dict" and nargs == 1 and plain:
+                B, t, ty = self.ex(e.args[0])
+                if ty != OBJ:
+                    self.err(e, "argument is not an object")
+                return B, f"(should_flatten_gen (obj_keys {t}))", BOOL
+            if n in ECLS:
+                if n == "ListEntry" and nargs == 0 and plain:
+                    return [], f"(mk_entry {ECLS[n]} [])", ENTRY
+                if n != "ListEntry" and nargs == 0 and [k.arg for k in e.keywords] == ["keys"]:
+                    B, t, ty = self.ex(e.keywords[0].value)
+                    if ty != LIST(KEY):
+                        self.err(e, "keys= is not a list of keys")
+                    return B, f"(mk_entry {ECLS[n]} {t})", ENTRY
+                self.err(e, "unsupported entry constructor call")
+            if n in self.sigs:
+                sig = self.sigs[n]
+                if sig.mutates:
+                    self.err(e, "a mutating function used as an expression")
+                B, ts = [], []
+                for a, pt in zip(self.callargs(e, sig), sig.ptypes):
+                    Ba, t, ty = self.ex(a)
+                    if not same(ty, pt):
+                        self.err(a, f"argument type {ty}, expected {pt}")
+                    B += Ba
+                    ts.append(t)
+                if sig.fuel and not self.sig.fuel:
+                    self.err(e, "call of a recursive function from a function without fuel")
+                if n == self.fn.name:
+                    self.self_calls += 1
+                x = self.tmp()
+                return B + [(x, f"{sig.gname} {'fuel ' if sig.fuel else ''}{' '.join(ts)}")], x, sig.ret
+        if isinstance(f, ast.Attribute):
+            # dict.fromkeys(keys) / OrderedDict.fromkeys(keys)
+            if f.attr == "fromkeys" and isinstance(f.value, ast.Name) and f.value.id in ("dict", "OrderedDict") \
+                    and f.value.id not in self.env and nargs == 1 and plain:
+                B, t, ty = self.ex(e.args[0])
+                if ty != LIST(KEY):
+                    self.err(e, "fromkeys of a non key list")
+                return B, f"(cont_fromkeys {'true' if f.value.id == 'OrderedDict' else 'false'} (RVal py_none) {t})", CONT
+            if f.attr == "chain" and self.builtin(f.value, "itertools") and nargs == 2 and plain:
+                parts = []
+                for a in e.args:
+                    t, ty = self.pure(a)
+                    if ty == LIST(PAIR(STR, OBJ)) and t.startswith("(sdict_items "):
+                        t, ty = "(leaf_items " + t[len("(sdict_items "):], LIST(PAIR(STR, REF))
+                    if ty != LIST(PAIR(STR, REF)):
+                        self.err(a, "chain() of this is not modelled")
+                    parts.append(t)
+                return [], f"({parts[0]} ++ {parts[1]})", LIST(PAIR(STR, REF))
+            if f.attr == "join" and isinstance(f.value, ast.Constant) and f.value.value == "/" and nargs == 1 and plain:
+                B, t, ty = self.ex(e.args[0])
+                if ty != LIST(STR):
+                    self.err(e, "join of a non str list")
+                return B, f"(join {t})", STR
+            if f.attr == "split" and nargs == 1 and plain and isinstance(e.args[0], ast.Constant) and e.args[0].value == "/":
+                B, t, ty = self.ex(f.value)
+                if ty != STR:
+                    self.err(e, "split of a non-str")
+                return B, f"(split {t})", LIST(STR)
+            if f.attr in ("keys", "items") and nargs == 0 and plain:
+                B, t, ty = self.ex(f.value)
+                if ty == OBJ:
+                    return (B, f"(obj_keys {t})", LIST(KEY)) if f.attr == "keys" else (B, f"(obj_items {t})", LIST(PAIR(KEY, OBJ)))
+                if ty == CONT and f.attr == "keys":
+                    x = self.tmp()
+                    return B + [(x, f"cont_keys {t}")], x, LIST(KEY)
+                if f.attr == "items" and ty == HEAP:
+                    return B, f"(heap_items {t})", LIST(PAIR(STR, REF))   # (path, the container object)
+                if f.attr == "items" and ty == DDICT:
+                    return B, f"(sdict_items {t})", LIST(PAIR(STR, SDICT(REF)))
+                if f.attr == "items" and isinstance(ty, tuple) and ty[0] == "sdict" and ty[1] is not None:
+                    return B, f"(sdict_items {t})", LIST(PAIR(STR, ty[1]))
+        self.err(e, "unsupported call")
+
+    def sorted_(self, e):
+        B, items, ty = self.ex(e.args[0])
+        lam = e.keywords[0].value
+        if not (isinstance(ty, tuple) and ty[0] == "list" and isinstance(lam, ast.Lambda) and len(lam.args.args) == 1
+                and not lam.args.defaults and not lam.args.vararg and not lam.args.kwarg):
+            self.err(e, "unsupported sorted()")
+        x = lam.args.args[0].arg
+        saved = dict(self.env)
+        self.env[x] = ty[1]
+        Bk, k, tk = self.ex(lam.body)
+        self.env = saved
+        if tk == INT and not Bk:
+            x2 = self.tmp()
+            return B + [(x2, f"py_sorted_int (fun {self.v(x)} => Some {k}) {items}")], x2, ty
+        if tk == INT and len(Bk) == 1 and Bk[0][0] == k:        # the whole key is one call that can raise: int(..)
+            x2 = self.tmp()
+            return B + [(x2, f"py_sorted_int (fun {self.v(x)} => {Bk[0][1]}) {items}")], x2, ty
+        if tk == STR and not Bk:
+            return B, f"(py_sorted_str (fun {self.v(x)} => {k}) {items})", ty
+        self.err(e, "unsupported sort key")
+
+    # ------------------------------------------------------------------ statements (continuation style)
+    @staticmethod
+    def binds(B, ind) -> str:
+        return "".join(f"{ind}{n} <- {t} ;;\n" for n, t in B)
+
+    def let_or_bind(self, name, B, t, ty, ind) -> str:
+        """name = <expression>; when the expression is one call that can raise, bind the name directly"""
+        self.env[name] = ty
+        if B and B[-1][0] == t:
+            return self.binds(B[:-1], ind) + f"{ind}{self.v(name)} <- {B[-1][1]} ;;\n"
+        return self.binds(B, ind) + f"{ind}let {self.v(name)} := {t} in\n"
+
+    def block(self, stmts, ind, cont) -> str:
+        if not stmts:
+            return cont(ind)
+        s, rest = stmts[0], list(stmts[1:])
+        if isinstance(s, ast.Expr) and isinstance(s.value, ast.Constant) and isinstance(s.value.value, str):
+            return self.block(rest, ind, cont)                                  # docstring
+        c = f"{ind}{_comment(s)}\n"
+
+        def nxt():
+            return self.block(rest, ind, cont)
+
+        if isinstance(s, ast.Raise):
+            return c + f"{ind}None"
+        if isinstance(s, ast.Continue):
+            if not self.loop_conts:
+                self.err(s, "continue outside a loop")
+            return c + self.loop_conts[-1](ind)
+        if isinstance(s, ast.Return):
+            if s.value is None:
+                self.err(s, "bare return")
+            if self.sig.heap_ret:
+                B, t, ty = self.ex(s.value, want=REF)
+                if ty == OBJ:
+                    t = f"(RVal {t})"
+                elif ty != REF:
+                    self.err(s, "returns neither an object nor a container")
+                heaps = [n for n, ty2 in self.env.items() if ty2 == HEAP]
+                if len(heaps) > 1:
+                    self.err(s, "more than one dict of containers")
+                return c + self.binds(B, ind) + f"{ind}Some ({self.v(heaps[0]) if heaps else '[]'}, {t})"
+            B, t, ty = self.ex(s.value, want=self.sig.ret)
+            if not same(ty, self.sig.ret):
+                self.err(s, f"returns {ty}, expected {self.sig.ret}")
+            if B and B[-1][0] == t:                                              # tail call
+                return c + self.binds(B[:-1], ind) + f"{ind}{B[-1][1]}"
+            return c + self.binds(B, ind) + f"{ind}Some {t}"
+        if isinstance(s, ast.If):
+            B, t, ty = self.ex(s.test)
+            if ty != BOOL:
+                self.err(s.test, "condition is not a bool")
+            saved = dict(self.env)
+            a = self.block(list(s.body) + rest, ind + "  ", cont)
+            self.env = dict(saved)
+            b = self.block(list(s.orelse) + rest, ind + "  ", cont)
+            self.env = saved
+            return f"{ind}(* {s.lineno}: if {ast.unparse(s.test)[:80].replace(chr(34), chr(39))} *)\n" + self.binds(B, ind) + \
+                f"{ind}if {t} then\n{a}\n{ind}else\n{b}"
+        if isinstance(s, ast.For):
+            return c + self.for_(s, ind, nxt)
+        if isinstance(s, ast.Delete) and len(s.targets) == 1 and isinstance(s.targets[0], ast.Subscript) \
+                and isinstance(s.targets[0].value, ast.Name):
+            d = s.targets[0].value.id
+            if self.env.get(d) != CONT:
+                self.err(s, "del on this is not modelled")
+            k, tk = self.pure(s.targets[0].slice)
+            if tk != KEY:
+                self.err(s, "del with a non-key")
+            return c + f"{ind}{self.v(d)} <- cont_delitem {self.v(d)} {k} ;;\n" + nxt()
+        if isinstance(s, (ast.Assign, ast.AnnAssign)):
+            if isinstance(s, ast.Assign):
+                if len(s.targets) != 1:
+                    self.err(s, "chained assignment")
+                target, value = s.targets[0], s.value
+            else:
+                target, value = s.target, s.value
+                if value is None:
+                    self.err(s, "annotation without a value")
+            if isinstance(target, ast.Name):
+                # x = l.pop()
+                if (isinstance(value, ast.Call) and isinstance(value.func, ast.Attribute) and value.func.attr == "pop"
+                        and isinstance(value.func.value, ast.Name) and not value.args and not value.keywords):
+                    l = value.func.value.id
+                    lt = self.env.get(l)
+                    if not (isinstance(lt, tuple) and lt[0] == "list"):
+                        self.err(s, "pop() on this is not modelled")
+                    x = self.tmp()
+                    self.env[target.id] = lt[1]
+                    return c + (f"{ind}{x} <- py_pop {self.v(l)} ;;\n{ind}let {self.v(l)} := fst {x} in\n"
+                                f"{ind}let {self.v(target.id)} := snd {x} in\n") + nxt()
+                B, t, ty = self.ex(value)
+                return c + self.let_or_bind(target.id, B, t, ty, ind) + nxt()
+            if isinstance(target, ast.Tuple) and len(target.elts) == 2 and all(isinstance(x, ast.Name) for x in target.elts):
+                B, t, ty = self.ex(value)
+                if not (isinstance(ty, tuple) and ty[0] == "pair"):
+                    self.err(s, "unpacking a non-pair")
+                a, b = target.elts
+                self.env[a.id], self.env[b.id] = ty[1], ty[2]
+                return c + self.binds(B, ind) + f"{ind}let {self.v(a.id)} := fst {t} in\n{ind}let {self.v(b.id)} := snd {t} in\n" + nxt()
+            if isinstance(target, ast.Subscript):
+                return c + self.setitem(s, target, value, ind) + nxt()
+            self.err(s, "unsupported assignment target")
+        if isinstance(s, ast.Expr) and isinstance(s.value, ast.Call):
+            e = s.value
+            f = e.func
+            if isinstance(f, ast.Attribute) and isinstance(f.value, ast.Name) and f.value.id in self.env \
+                    and len(e.args) == 1 and not e.keywords:
+                d, dt = f.value.id, self.env[f.value.id]
+                if f.attr == "update" and isinstance(dt, tuple) and dt[0] == "sdict":
+                    B, t, ty = self.ex(e.args[0])
+                    if not same(ty, dt):
+                        self.err(s, f"update of {dt} with {ty}")
+                    if dt[1] is None:
+                        self.env[d] = ty
+                    return c + self.binds(B, ind) + f"{ind}let {self.v(d)} := sdict_update {self.v(d)} {t} in\n" + nxt()
+                if f.attr == "extend" and dt == CONT:
+                    B, t, ty = self.ex(e.args[0])
+                    if ty != LIST(REF):
+                        self.err(s, "extend with a non-list of objects")
+                    return c + self.binds(B, ind) + f"{ind}{self.v(d)} <- cont_extend {self.v(d)} {t} ;;\n" + nxt()
+            if isinstance(f, ast.Name) and f.id in self.sigs and self.sigs[f.id].mutates and f.id not in self.env:
+                return c + self.mutating_call(s, e, self.sigs[f.id], ind) + nxt()
+        self.err(s, "unsupported statement")
+
+    def setitem(self, s, target, value, ind) -> str:
+        base = target.value
+        if isinstance(base, ast.Name) and base.id in self.env:
+            d, dt = base.id, self.env[base.id]
+            if isinstance(dt, tuple) and dt[0] == "sdict":
+                k, tk = self.pure(target.slice)
+                if tk != STR:
+                    self.err(s, "non-str key")
+                B, t, ty = self.ex(value, want=dt[1])
+                if dt[1] is not None and not same(ty, dt[1]):
+                    self.err(s, f"stores {ty} in a dict of {dt[1]}")
+                self.env[d] = SDICT(ty)
+                return self.binds(B, ind) + f"{ind}let {self.v(d)} := sdict_set {k} {t} {self.v(d)} in\n"
+            if dt == CONT:
+                k, tk = self.pure(target.slice)
+                if tk != KEY:
+                    self.err(s, "container item with a non-key")
+                B, t, ty = self.ex(value)
+                if ty != REF:
+                    self.err(s, "stores a non-object in a container")
+                return self.binds(B, ind) + f"{ind}{self.v(d)} <- cont_setitem {self.v(d)} {k} {t} ;;\n"
+        if isinstance(base, ast.Subscript) and isinstance(base.value, ast.Name) and self.env.get(base.value.id) == DDICT:
+            d = base.value.id
+            k1, t1 = self.pure(base.slice)
+            k2, t2 = self.pure(target.slice)
+            val, tv = self.pure(value)
+            if (t1, t2, tv) != (STR, STR, REF):
+                self.err(s, "unsupported defaultdict store")
+            return f"{ind}let {self.v(d)} := ddict_set2 {k1} {k2} {val} {self.v(d)} in\n"
+        self.err(s, "unsupported item assignment")
+
+    def mutating_call(self, s, e, sig: Sig, ind) -> str:
+        """f(.., p=h[k], ..) where f mutates its parameter p in place: the heap cell h[k] is rewritten"""
+        if len(sig.mutates) != 1:
+            self.err(s, "function mutating several parameters")
+        B, ts, cell = [], [], None
+        for a, p, pt in zip(self.callargs(e, sig), sig.params, sig.ptypes):
+            if p in sig.mutates:
+                if not (isinstance(a, ast.Subscript) and isinstance(a.value, ast.Name) and self.env.get(a.value.id) == HEAP):
+                    self.err(a, "the mutated argument is not a cell of the dict of containers")
+                k, tk = self.pure(a.slice)
+                if tk != STR:
+                    self.err(a, "non-str key")
+                x = self.tmp()
+                B.append((x, f"sdict_get {k} {self.v(a.value.id)}"))
+                ts.append(x)
+                cell = (a.value.id, k)
+            else:
+                Ba, t, ty = self.ex(a)
+                if not same(ty, pt):
+                    self.err(a, f"argument type {ty}, expected {pt}")
+                B += Ba
+                ts.append(t)
+        x = self.tmp()
+        B.append((x, f"{sig.gname} {' '.join(ts)}"))
+        h, k = cell
+        return self.binds(B, ind) + f"{ind}let {self.v(h)} := sdict_set {k} {x} {self.v(h)} in\n"
+
+    def for_(self, s: ast.For, ind, nxt) -> str:
+        if s.orelse:
+            self.err(s, "for/else")
+        B, items, ity = self.ex(s.iter)
+        if not (isinstance(ity, tuple) and ity[0] == "list"):
+            self.err(s.iter, "loop over a non-list")
+        before = dict(self.env)
+        touched = assigned(s.body, self.sigs)
+        state = [n for n in before if n in touched]
+        if not state:
+            self.err(s, "loop without an effect on the variables defined before it")
+        d = len(self.loop_conts)
+        st, it = (f"st{d}" if d else "st"), (f"it{d}" if d else "it")
+        vs = [self.v(n) for n in state]
+        pack = vs[0] if len(vs) == 1 else "(" + ", ".join(vs) + ")"
+
+        def proj(i, n, src):
+            if n == 1:
+                return src
+            inner = src
+            for _ in range(n - 1 - i if i > 0 else n - 1):
+                inner = f"(fst {inner})"
+            return f"snd {inner}" if i > 0 else inner[1:-1]
+
+        ind2 = ind + "    "
+        head = "".join(f"{ind2}let {x} := {proj(i, len(vs), st)} in\n" for i, x in enumerate(vs))
+        tl = self.bind_target(s.target, ity[1], it)
+        head += "".join(f"{ind2}{l.strip()}\n" for l in tl.replace(" in ", " in\n").splitlines() if l.strip())
+        final = {}
+
+        def body_cont(i2):
+            for n in state:
+                if before[n] != self.env.get(n) and n not in final:
+                    final[n] = self.env.get(n)
+            return f"{i2}Some {pack}"
+
+        self.loop_conts.append(body_cont)
+        body = self.block(list(s.body), ind2, body_cont)
+        self.loop_conts.pop()
+        self.env = before
+        for n, t in final.items():
+            if not same(t, before[n]):
+                self.err(s, f"the loop changes the type of {n}")
+            self.env[n] = t
+        out = self.binds(B, ind)
+        if len(vs) == 1:
+            out += f"{ind}{vs[0]} <- py_for {items} {vs[0]} (fun {st} {it} =>\n{head}{body}) ;;\n"
+        else:
+            out += f"{ind}{st} <- py_for {items} {pack} (fun {st} {it} =>\n{head}{body}) ;;\n"
+            out += "".join(f"{ind}let {x} := {proj(i, len(vs), st)} in\n" for i, x in enumerate(vs))
+        return out + nxt()
+
+    # ------------------------------------------------------------------ the definition
+    def emit(self) -> str:
+        sig = self.sig
+        body_stmts = _strip_doc(self.fn.body)
+        touched = assigned(body_stmts, self.sigs)
+        # parameters mutated in place (not merely rebound): the caller sees the change
+        muts = []
+        for n in ast.walk(self.fn):
+            if isinstance(n, ast.Call) and isinstance(n.func, ast.Attribute) and n.func.attr in MUTATORS \
+                    and isinstance(n.func.value, ast.Name) and n.func.value.id in self.params:
+                muts.append(n.func.value.id)
+            if isinstance(n, (ast.Assign, ast.Delete)):
+                for t in n.targets:
+                    if isinstance(t, ast.Subscript) and _base_name(t) in self.params:
+                        muts.append(_base_name(t))
+        sig.mutates = [p for p in self.params if p in muts]
+        for p in sig.mutates:
+            if self.env[p] != CONT:
+                raise TranslateError(self.where, f"parameter {p} is mutated in place; only containers are modelled as mutable")
+        returns = [n for n in ast.walk(self.fn) if isinstance(n, ast.Return) and n.value is not None]
+        if sig.mutates and returns:
+            raise TranslateError(self.where, "a function that mutates its parameter and returns a value")
+
+        def end(ind):
+            if sig.mutates:
+                return f"{ind}Some {self.v(sig.mutates[0])}"
+            raise TranslateError(self.where, "control reaches the end of the function without return / raise")
+
+        body = self.block(body_stmts, "    " if sig.fuel and sig.py == "_flatten" else "  ", end)
+        ps = " ".join(f"({self.v(n)} : {coqty(t)})" for n, t in zip(self.params, sig.ptypes))
+        ret = "heap * ref" if sig.heap_ret else coqty(sig.ret)
+        head = f"(* flatten.py:{self.fn.lineno}  def {self.fn.name}({', '.join(self.params)}) *)\n"
+        if sig.py == "_flatten":
+            if self.self_calls == 0:
+                raise TranslateError(self.where, "_flatten no longer calls itself")
+            return (head + f"Fixpoint {sig.gname} (fuel : nat) {ps} {{struct fuel}} : option ({ret}) :=\n"
+                    f"  match fuel with\n  | O => None\n  | S fuel =>\n{body}\n  end.\n")
+        if self.self_calls:
+            raise TranslateError(self.where, "unexpected recursion")
+        return head + f"Definition {sig.gname} {'(fuel : nat) ' if sig.fuel else ''}{ps} : option ({ret}) :=\n{body}.\n"
+
+
+def _check_module(tree: ast.Module):
+    """the global names the translation relies on mean what it thinks"""
+    expected_imports = {
+        ("", "itertools"), ("collections", "defaultdict"), ("collections", "OrderedDict"), ("urllib.parse", "unquote"),
+        ("manifest", "DictEntry"), ("manifest", "ListEntry"), ("manifest", "OrderedDictEntry")}
+    found = set()
+    for n in tree.body:
+        if isinstance(n, ast.Import):
+            for a in n.names:
+                if a.asname is not None:
+                    raise TranslateError("imports", f"import {a.name} as {a.asname}")
+                found.add(("", a.name))
+        elif isinstance(n, ast.ImportFrom):
+            for a in n.names:
+                if a.asname is not None:
+                    raise TranslateError("imports", f"from {n.module} import {a.name} as {a.asname}")
+                found.add((n.module or "", a.name))
+        elif isinstance(n, ast.FunctionDef):
+            if n.decorator_list:
+                raise TranslateError(n.name, "decorated function")
+        elif isinstance(n, ast.Expr) and isinstance(n.value, ast.Constant):
+            pass
+        else:
+            raise TranslateError("module", f"unexpected top-level statement at line {n.lineno}: {ast.unparse(n)[:80]}")
+    missing = expected_imports - found
+    if missing:
+        raise TranslateError("imports", f"missing {sorted(missing)}")
+    shadow = {"list", "dict", "str", "int", "len", "type", "isinstance", "sorted", "enumerate"}
+    names = {a for _, a in found} | {n.name for n in tree.body if isinstance(n, ast.FunctionDef)}
+    if names & shadow:
+        raise TranslateError("module", f"builtin shadowed: {sorted(names & shadow)}")
+
+
+def _check_entry_classes():
+    """ListEntry / DictEntry / OrderedDictEntry derive from Entry directly: isinstance among them is class equality"""
+    mpath = os.path.join(REPO, "torchsnapshot", "manifest.py")
+    mtree = ast.parse(open(mpath).read())
+    classes = {n.name: n for n in mtree.body if isinstance(n, ast.ClassDef)}
+    for c in ECLS:
+        if c not in classes:
+            raise TranslateError("manifest.py", f"class {c} not found")
+        bases = [ast.unparse(b) for b in classes[c].bases]
+        if bases != ["Entry"]:
+            raise TranslateError("manifest.py", f"class {c} has bases {bases}; isinstance is modelled as class equality")
+    for c, n in classes.items():
+        if c not in ECLS and any(ast.unparse(b) in ECLS for b in n.bases):
+            raise TranslateError("manifest.py", f"class {c} derives from a container entry class")
+
+
+REC_ORDER = ["_flatten", "flatten", "_entry_to_container", "_populate_container", "inflate"]
+
+
+def generate_rec() -> dict:
+    path = os.path.join(REPO, "torchsnapshot", "flatten.py")
+    tree = ast.parse(open(path).read())
+    fns = {n.name: n for n in tree.body if isinstance(n, ast.FunctionDef)}
+    _check_module(tree)
+    _check_entry_classes()
+    _check_decode(fns["_decode"], tree)
+    flat_ret = PAIR(SDICT(ENTRY), SDICT(OBJ))
+    sigs = {
+        "_flatten": Sig("_flatten", "flatten_gen", [OBJ, STR], flat_ret, fuel=True),
+        "flatten": Sig("flatten", "flatten_top_gen", [OBJ, STR], flat_ret, fuel=True),
+        "_entry_to_container": Sig("_entry_to_container", "entry_to_container_gen", [ENTRY], CONT),
+        "_populate_container": Sig("_populate_container", "populate_container_gen", [STR, CONT, SDICT(REF)], CONT),
+        "inflate": Sig("inflate", "inflate_gen", [SDICT(ENTRY), SDICT(OBJ), STR], REF, heap_ret=True),
+    }
+    for name in REC_ORDER:
+        if name not in fns:
+            raise TranslateError(name, "function not found in flatten.py")
+        sigs[name].params = [a.arg for a in fns[name].args.args]
+    out = []
+    for name in REC_ORDER:
+        out.append(FnTr(fns[name], sigs[name], sigs).emit())
+    if sigs["_populate_container"].mutates != [sigs["_populate_container"].params[1]]:
+        raise TranslateError("_populate_container", "expected exactly the container parameter to be mutated in place")
+    text = ("(* generated by translator/gen_flatten.py (generate_rec) from torchsnapshot/flatten.py on every run - do not edit.\n"
+            "   Statement-by-statement translation; the number in each comment is the source line.  Vocabulary:\n"
+            "   model/FlattenPy.v (Python dicts, types, containers, references), model/Flatten.v (str/int/unquote). *)\n"
+            "From TS Require Import model.Base model.Flatten model.FlattenPy gen.FlattenGen.\n\n" + "\n".join(out))
+    return {"FlattenRecGen": text}
